@@ -557,6 +557,91 @@ theorem extracted_collection_verified {D : Type} [DecidableEq D] (emptySha : D) 
       simp only at h1 h2
       rw [h1, h2]
 
+/-- `archive_load_no_write_before_failure` — `Load` with `ArchiveReader`, as the composition `loadArchive` of the
+envelope reader, the unpack into the private temporary directory and the directory load:
+* a failure of ANY stage (frame stream, tar / extraction / collection validation, manifest decoding, manifest
+  validation, fragment verification, schema, non-empty target) leaves the write trace without a single batch;
+* on success the frame stream was accepted, the unpack succeeded, manifest.json of the unpacked collection decoded
+  as a whole, and the result IS the directory load of the unpacked collection — so every batch is preceded by the
+  verification of all fragments (`verify_before_write` applies verbatim);
+* and, under the AEAD hypotheses of `frames_authentic_any_reader` (freeness, no forgery, contract-abiding probe),
+  the accepted stream is exactly the written one: a truncated, extended, reordered, spliced or re-keyed archive
+  never reaches the database. -/
+theorem archive_load_no_write_before_failure {D R σ K H C : Type} [DecidableEq D] (E : LoadEnv D R σ)
+    (A : Aead K (Aad H) C) (k : K) (hh : H) (probe : Probe) (untar : List Bytes → List Item) (refuse : Str → Bool)
+    (validate : FS → Bool) (tempPath : Str) (view : FS → Bytes × Dir) (parseValue : Bytes → Option (Man D × Bytes))
+    (fs : List (Frame C)) (tail : Tail) :
+    let r := loadArchive E A k hh probe untar refuse validate tempPath view parseValue fs tail
+    (r.err.isSome = true → ∀ ev ∈ r.trace, ev.isBatch = false) ∧
+    (r.err = none → ∃ chunks, readFramesVia A k hh probe 0 fs tail = .ok chunks ∧
+        (unpackEncDirect refuse validate true tempPath (untar chunks) { out := some [] }).err = none ∧
+        ∃ m, decodeWhole parseValue
+              (view (files ((unpackEncDirect refuse validate true tempPath (untar chunks) { out := some [] }).final { out := some [] }).out)).1 = some m ∧
+          r = load E m (view (files ((unpackEncDirect refuse validate true tempPath (untar chunks) { out := some [] }).final { out := some [] }).out)).2) ∧
+    (r.err = none → Aead.Free A → probe.Valid → ∀ hh0 written,
+        (∀ f ∈ fs, (∃ a p, f.ct = A.sealIt k a p) → f.ct ∈ cts (writeFrames A k hh0 written)) →
+        hh = hh0 ∧ fs = writeFrames A k hh0 written ∧ tail = Tail.clean) := by
+  intro r
+  have hload : ∀ (m : Man D) (dir : Dir), (load E m dir).err.isSome = true → ∀ ev ∈ (load E m dir).trace, ev.isBatch = false := by
+    intro m dir he ev hev
+    cases hb : ev.isBatch with
+    | false => rfl
+    | true =>
+      have := (load_batch_implies E m dir ev hev hb).2.2.1
+      rw [this] at he
+      cases he
+  show (_ ∧ _ ∧ _)
+  cases hfr : readFramesVia A k hh probe 0 fs tail with
+  | error e =>
+    have hr : r = ⟨[], some .archive⟩ := by
+      show loadArchive E A k hh probe untar refuse validate tempPath view parseValue fs tail = _
+      unfold loadArchive; rw [hfr]
+    rw [hr]
+    refine ⟨?_, ?_, ?_⟩
+    · simp
+    · intro h; simp at h
+    · intro h; simp at h
+  | ok chunks =>
+    by_cases hu : (unpackEncDirect refuse validate true tempPath (untar chunks) { out := some [] }).err.isSome = true
+    · have hr : r = ⟨[], some .archive⟩ := by
+        show loadArchive E A k hh probe untar refuse validate tempPath view parseValue fs tail = _
+        unfold loadArchive; rw [hfr]; simp only; rw [if_pos hu]
+      rw [hr]
+      refine ⟨?_, ?_, ?_⟩
+      · simp
+      · intro h; simp at h
+      · intro h; simp at h
+    · have hr : r = loadBytes E parseValue
+          (view (files ((unpackEncDirect refuse validate true tempPath (untar chunks) { out := some [] }).final { out := some [] }).out)).1
+          (view (files ((unpackEncDirect refuse validate true tempPath (untar chunks) { out := some [] }).final { out := some [] }).out)).2 := by
+        show loadArchive E A k hh probe untar refuse validate tempPath view parseValue fs tail = _
+        unfold loadArchive; rw [hfr]; simp only; rw [if_neg hu]
+      have hunone : (unpackEncDirect refuse validate true tempPath (untar chunks) { out := some [] }).err = none := by
+        cases h : (unpackEncDirect refuse validate true tempPath (untar chunks) { out := some [] }).err with
+        | none => rfl
+        | some e => simp [h] at hu
+      have hauthentic : r.err = none → Aead.Free A → probe.Valid → ∀ hh0 written,
+          (∀ f ∈ fs, (∃ a p, f.ct = A.sealIt k a p) → f.ct ∈ cts (writeFrames A k hh0 written)) →
+          hh = hh0 ∧ fs = writeFrames A k hh0 written ∧ tail = Tail.clean := by
+        intro _ hfree hpv hh0 written hauth
+        obtain ⟨h1, h2, h3, _⟩ := frames_authentic_any_reader A hfree k hh0 written hh fs tail chunks probe hpv hauth hfr
+        exact ⟨h1, h2, h3⟩
+      cases hd : decodeWhole parseValue
+          (view (files ((unpackEncDirect refuse validate true tempPath (untar chunks) { out := some [] }).final { out := some [] }).out)).1 with
+      | none =>
+        have hr2 : r = ⟨[], some .manifest⟩ := by rw [hr]; unfold loadBytes; rw [hd]
+        refine ⟨?_, ?_, hauthentic⟩
+        · rw [hr2]; simp
+        · rw [hr2]; intro h; simp at h
+      | some m =>
+        have hr2 : r = load E m
+            (view (files ((unpackEncDirect refuse validate true tempPath (untar chunks) { out := some [] }).final { out := some [] }).out)).2 := by
+          rw [hr]; unfold loadBytes; rw [hd]
+        refine ⟨?_, ?_, hauthentic⟩
+        · rw [hr2]; exact hload m _
+        · intro _
+          exact ⟨chunks, rfl, hunone, m, hd, hr2⟩
+
 /-! ## (c) the staging protocol of `Unpack` -/
 
 /-- `staging_promote_atomic` (encrypted unpack path, `retriever.Unpack`). For every archive content, every
